@@ -60,8 +60,10 @@ GROUPS = {
     'R': [('bid128_round_integral.rs', n) for n in (
         'bid128_round_integral_zero', 'bid128_round_integral_negative', 'bid128_round_integral_positive',
         'bid128_round_integral_nearest_even', 'bid128_round_integral_nearest_away')],
-    # RP: round to integral, mode as an argument (PARTIAL theorems: special / zero / exponent >= 0 / exponent <= -35 operands)
-    'RP': [('bid128_round_integral.rs', 'bid128_round_integral_exact'), ('bid128_nearbyint.rs', 'bid128_nearbyint')],
+    # RN: nearbyint (complete theorem, mode as an argument; about 6 minutes: thorough tier)
+    'RN': [('bid128_nearbyint.rs', 'bid128_nearbyint')],
+    # RP: round_integral_exact (PARTIAL theorem: special / zero / exponent >= 0 / exponent <= -35 operands)
+    'RP': [('bid128_round_integral.rs', 'bid128_round_integral_exact')],
     'NP': [('bid128_next.rs', 'bid128_nextafter'), ('bid128_nexttoward.rs', 'bid128_nexttoward')],
     # J: to-integer conversions with complete value/status theorems (Impl/ImplRound.v holds the shared facts; the rninta block is
     # generated from the rnint block by gen_toint_proofs.py)
